@@ -143,6 +143,40 @@ index_mutations(const std::string& text)
   return out;
 }
 
+// every integer-valued "key := <n>" line with the value replaced by 0, -1 and 1 (counts that the storage behind them cannot
+// hold, or that no longer match the lists that follow)
+std::vector<std::pair<std::string, long>>
+number_mutations(const std::string& text)
+{
+  std::vector<std::pair<std::string, long>> out;
+  size_t pos = 0;
+  while (pos < text.size())
+    {
+      size_t eol = text.find('\n', pos);
+      if (eol == std::string::npos)
+        eol = text.size();
+      const size_t assign = text.find(":=", pos);
+      if (assign != std::string::npos && assign < eol)
+        {
+          size_t a = assign + 2;
+          while (a < eol && text[a] == ' ')
+            ++a;
+          size_t b = a;
+          while (b < eol && isdigit((unsigned char)text[b]))
+            ++b;
+          size_t c = b;
+          while (c < eol && (text[c] == ' ' || text[c] == '\r'))
+            ++c;
+          if (b > a && c == eol)
+            for (const char* r : { "0", "-1", "1" })
+              if (text.substr(a, b - a) != r)
+                out.push_back(std::make_pair(text.substr(0, a) + r + text.substr(b), (long)a));
+        }
+      pos = eol + 1;
+    }
+  return out;
+}
+
 // ---------------------------------------------------------------- registries
 struct RootOps
 {
@@ -1151,6 +1185,16 @@ op_interfile(const Plan& p, const Op& op, sim::Result& res)
         }
       sim::fired("INDEX", n);
     }
+  else if (op.kind.find("numbers") != std::string::npos)
+    {
+      for (auto& m : number_mutations(header))
+        {
+          spit_text(header_path, m.first);
+          check("NUMBER", m.second);
+          ++n;
+        }
+      sim::fired("NUMBER", n);
+    }
   else if (op.kind.find("datasize") != std::string::npos)
     {
       // header intact, data file shorter (every 1/32nd) or longer
@@ -1204,11 +1248,12 @@ gen(uint64_t seed, const std::string& tier, long idx)
                                  "interfile_img_flip", "interfile_img_lines", "interfile_img_datasize", "keyparser", "registry_round_trip",
                                  "registry_values", "registry_index", "interfile_pd_index", "interfile_img_index",
                                  "interfile_lm_eof", "interfile_lm_flip", "interfile_lm_lines", "interfile_lm_index",
-                                 "multi_eof", "multi_flip", "multi_lines", "multi_index", "registry_values", "registry_values" };
+                                 "multi_eof", "multi_flip", "multi_lines", "multi_index", "registry_values", "registry_values",
+                                 "interfile_pd_numbers", "interfile_img_numbers", "interfile_lm_numbers", "multi_numbers" };
   Op o;
-  o.kind = kinds[idx % 30];
-  // class index walks through all registered classes (the three registry_values slots of a block of 30 take three classes)
-  const long walk = o.kind == std::string("registry_values") ? idx / 30 * 3 + (idx % 30 == 16 ? 0 : (idx % 30 == 28 ? 1 : 2)) : idx / 30;
+  o.kind = kinds[idx % 34];
+  // class index walks through all registered classes (the three registry_values slots of a block of 34 take three classes)
+  const long walk = o.kind == std::string("registry_values") ? idx / 34 * 3 + (idx % 34 == 16 ? 0 : (idx % 34 == 28 ? 1 : 2)) : idx / 34;
   o.a.push_back(walk + (long)r.below(3) * 1000003L);
   o.a.push_back((long)r.below(100000));
   p.ops.push_back(o);
